@@ -248,55 +248,98 @@ def has_negative_scaler(case):
     return False
 
 
-def pure_scipy_reaches(case, xstar, tol):
-    """the same QP given to scipy.optimize.minimize directly (model space, exact gradients)"""
+def plain_scipy_miss(case, xstar):
+    """The SAME scaled problem the driver poses (objective (f+a_f)*s_f, design vector (x+a_x)*s_x,
+    constraints (A x + a_c)*s_c with their scaled bounds, exact gradients) given to
+    scipy.optimize.minimize directly with the same settings.  Returns the distance of its result from
+    the exact optimum (model space), or None when it does not report success."""
     from scipy.optimize import minimize, NonlinearConstraint, Bounds, BFGS
     H = np.array(case['H'], dtype=float)
     b = np.array(case['b'], dtype=float)
     n = case['n']
     opt = case['opt']
+    dv, ob = case['dv'], case['obj']
+    sx = float(fr(dv['scaler'])) if dv['scaler'] is not None else 1.0
+    ax = float(fr(dv['adder'])) if dv['adder'] is not None else 0.0
+    sf = float(fr(ob['scaler'])) if ob['scaler'] is not None else 1.0
+    af = float(fr(ob['adder'])) if ob['adder'] is not None else 0.0
+
+    def unscale(xs):
+        return np.asarray(xs) / sx - ax
+
     cons = []
     for c in case['cons']:
         R = np.array([[float(v) for v in row] for row in con_rows(c)])
         m = con_size(c)
         lo, hi, eq = bnd(c['lower'], m), bnd(c['upper'], m), bnd(c['equals'], m)
+        adder, scaler = total_adder_scaler(c['scaling'], m)
+        if opt == 'trust-constr' and c['linear']:
+            # as the driver does: one LinearConstraint (keep_feasible) on rows . x_s, bounds minus offset
+            from scipy.optimize import LinearConstraint
+            As, lbs, ubs = [], [], []
+            for j in range(m):
+                a, ac, sc = R[j], float(adder[j]), float(scaler[j])
+                off = sc * (ac - a.sum() * ax)
+                if eq is not None:
+                    l = h = (float(eq[j]) + ac) * sc
+                else:
+                    l = (float(lo[j]) + ac) * sc if lo is not None and lo[j] > -INF else None
+                    h = (float(hi[j]) + ac) * sc if hi is not None and hi[j] < INF else None
+                    if sc < 0:
+                        l, h = h, l
+                As.append(sc * a / sx)
+                lbs.append(-np.inf if l is None else l - off)
+                ubs.append(np.inf if h is None else h - off)
+            cons.append(LinearConstraint(np.array(As), np.array(lbs), np.array(ubs), keep_feasible=True))
+            continue
         for j in range(m):
-            a = R[j]
+            a, ac, sc = R[j], float(adder[j]), float(scaler[j])
+            fun = (lambda xs, a=a, ac=ac, sc=sc: (a.dot(unscale(xs)) + ac) * sc)
+            jac = (lambda xs, a=a, sc=sc: sc * a / sx)
             if eq is not None:
-                l = h = float(eq[j])
+                l = h = (float(eq[j]) + ac) * sc
             else:
-                l = float(lo[j]) if lo is not None and lo[j] > -INF else -np.inf
-                h = float(hi[j]) if hi is not None and hi[j] < INF else np.inf
+                l = (float(lo[j]) + ac) * sc if lo is not None and lo[j] > -INF else None
+                h = (float(hi[j]) + ac) * sc if hi is not None and hi[j] < INF else None
+                if sc < 0:
+                    l, h = h, l
+                l = -np.inf if l is None else l
+                h = np.inf if h is None else h
             if opt == 'trust-constr':
-                cons.append(NonlinearConstraint(lambda x, a=a: a.dot(x), l, h, jac=lambda x, a=a: a.reshape(1, -1)))
+                cons.append(NonlinearConstraint(fun, l, h, jac=lambda xs, jac=jac: jac(xs).reshape(1, -1)))
             elif eq is not None:
-                cons.append({'type': 'eq', 'fun': lambda x, a=a, l=l: a.dot(x) - l, 'jac': lambda x, a=a: a})
+                cons.append({'type': 'eq', 'fun': lambda xs, fun=fun, l=l: fun(xs) - l, 'jac': jac})
             else:
                 if np.isfinite(l):
-                    cons.append({'type': 'ineq', 'fun': lambda x, a=a, l=l: a.dot(x) - l, 'jac': lambda x, a=a: a})
+                    cons.append({'type': 'ineq', 'fun': lambda xs, fun=fun, l=l: fun(xs) - l, 'jac': jac})
                 if np.isfinite(h):
-                    cons.append({'type': 'ineq', 'fun': lambda x, a=a, h=h: h - a.dot(x), 'jac': lambda x, a=a: -a})
-    dv = case['dv']
+                    cons.append({'type': 'ineq', 'fun': lambda xs, fun=fun, h=h: h - fun(xs),
+                                 'jac': lambda xs, jac=jac: -jac(xs)})
     dlo, dhi = bnd(dv['lower'], n), bnd(dv['upper'], n)
     bounds = None
-    if dlo is not None or dhi is not None:
-        bounds = Bounds([float(v) if v > -INF else -np.inf for v in (dlo or [-INF] * n)],
-                        [float(v) if v < INF else np.inf for v in (dhi or [INF] * n)],
+    if dlo is not None or dhi is not None or opt == 'trust-constr':   # the driver always passes Bounds to trust-constr
+        bounds = Bounds([(float(v) + ax) * sx if v > -INF else -np.inf for v in (dlo or [-INF] * n)],
+                        [(float(v) + ax) * sx if v < INF else np.inf for v in (dhi or [INF] * n)],
                         keep_feasible=(opt == 'trust-constr'))   # as the driver does for new-style bounds
-    x0 = np.array([float(fr(e)) for e in case['x0']])
-    kw = {'jac': (lambda x: H.dot(x) - b)} if opt != 'COBYLA' else {}
+    x0 = (np.array([float(fr(e)) for e in case['x0']]) + ax) * sx
+
+    def f(xs):
+        x = unscale(xs)
+        return (0.5 * x.dot(H.dot(x)) - b.dot(x) + af) * sf
+
+    kw = {'jac': (lambda xs: sf * (H.dot(unscale(xs)) - b) / sx)}
     options = {'maxiter': 1000}
-    if opt == 'COBYLA':
-        options.update(rhobeg=0.5, catol=1e-7)
     if opt == 'trust-constr':
         options.update(gtol=1e-9, xtol=1e-12)
         kw['hess'] = BFGS()
     try:
-        rr = minimize(lambda x: 0.5 * x.dot(H.dot(x)) - b.dot(x), x0, method=opt, bounds=bounds, constraints=cons,
+        rr = minimize(f, x0, method=opt, bounds=bounds, constraints=cons,
                       tol=case.get('tol', 1e-9), options=options, **kw)
     except Exception:   # noqa
-        return False
-    return bool(rr.success) and float(np.max(np.abs(rr.x - xstar))) <= tol * max(1.0, float(np.max(np.abs(xstar))))
+        return None
+    if not rr.success:
+        return None
+    return float(np.max(np.abs(unscale(rr.x) - xstar)))
 
 
 # ----------------------------------------------------------------------------- capture / probes
@@ -434,17 +477,20 @@ def handle(case):
     else:
         xs_ = np.array([float(v) for v in xstar])
         if np.max(np.abs(xs_ - xmod)) > tol_x * max(1.0, np.max(np.abs(xs_))):
-            # SciPy's `success` is not always a claim of optimality (trust-constr: xtol termination;
-            # COBYLA: final trust-region radius, no optimality measure at all).  The miss is attributed
-            # to the driver when the optimizer carries its own optimality certificate (trust-constr
-            # status 1) or when plain SciPy (SLSQP / trust-constr), given the same QP directly with the
-            # same settings, does reach the optimum (SLSQP itself stalls on linearly dependent active
-            # constraints and still reports success).  For COBYLA the optimum clause is only recorded.
-            certified = case['opt'] == 'trust-constr' and getattr(r, 'status', 0) == 1
-            if certified or (case['opt'] != 'COBYLA' and pure_scipy_reaches(case, xs_, tol_x)):
+            # SciPy's `success` is not a guarantee of accuracy (trust-constr: interior-point iterates stay
+            # O(sqrt(barrier/scaler)) away from a degenerate active bound even at status 1, xtol
+            # termination counts as success; SLSQP stalls on linearly dependent active constraints;
+            # COBYLA has no optimality measure at all).  The miss is charged to the driver when plain
+            # SciPy (SLSQP / trust-constr), given the SAME scaled problem with the same settings,
+            # succeeds and comes clearly closer to the exact optimum than the driver did.  For COBYLA
+            # the optimum clause is only recorded.
+            miss = float(np.max(np.abs(xs_ - xmod)))
+            ref = plain_scipy_miss(case, xs_) if case['opt'] != 'COBYLA' else None
+            if ref is not None and miss > 4.0 * max(ref, 0.25 * tol_x * max(1.0, float(np.max(np.abs(xs_))))):
                 problems.append(('C21:not-the-optimum',
-                                 'success reported by %s at x=%s but the exact KKT optimum is %s' % (
-                                     case['opt'], xmod.tolist(), [str(v) for v in xstar])))
+                                 'success reported by %s at x=%s but the exact KKT optimum is %s (plain SciPy on the '
+                                 'same scaled problem ends %.3g away, the driver %.3g)' % (
+                                     case['opt'], xmod.tolist(), [str(v) for v in xstar], ref, miss)))
             else:
                 kind += 'scipy-stops-early:'
     if problems:
@@ -455,8 +501,9 @@ def handle(case):
             sig += ':' + ('new-style' if case['opt'] in NEW_STYLE else 'old-style')
         elif sig in ('C21:not-the-optimum', 'C21:model-not-at-returned-design'):
             sig += ':' + case['opt']
-        if has_negative_scaler(case) and not sig.startswith('C21:model-not-at-returned-design'):
-            sig = 'C21:negative-constraint-scaler'
+        if has_negative_scaler(case):
+            # the cause is not known from the outcome: keep the observed class and mark the feature
+            sig += '+negative-constraint-scaler'
         return {'res': res, 'ok': False, 'msg': problems[0][1], 'sig': sig, 'kind': kind + 'success'}
     return {'res': res, 'ok': True, 'msg': '', 'sig': '', 'kind': kind + 'success'}
 
